@@ -27,11 +27,11 @@ free, undefined behaviour of the real machine code.
 
  (d) reference neutrality of the C TEXT, path by path (`Generated/RefPaths.lean`,
      translated from the working tree by `harness/translate/crefpaths.py`): on
-     every control-flow path of 36 functions of the attribute get/set core -
+     every control-flow path of 134 of the 153 functions of the file -
      including the allocation-failure paths no generator reaches - every
      reference acquired is released, returned, stolen or stored exactly once,
      and nothing is released that is not held (`C18_paths_balanced*`, no
-     exception listed).
+     exceptions).
 
 Only property theorems and their non-vacuity examples live here; helpers are
 in Lemmas/CTabIndex.lean, Lemmas/CTabLedger.lean and Lemmas/CTabRaw.lean.
@@ -667,31 +667,43 @@ TRUSTED: the API tables of crefpaths.py (which calls return new / borrowed
 references, which steal), that fields keep their value across calls, and the
 unrolling bound. -/
 
-/-! No exception is listed.  Three defects that the first run of this analysis
-found in the pinned `ctraits.c` have since been repaired in the source, and the
-theorem below is stated for plain `pathOk`:
-* F107 / F107b (e4a9aa5) `getattr_delegate` / `setattr_delegate` used the result of
-  `trait->delegate_attr_name(...)` without a NULL check: `Py_DECREF` of NULL and
-  `tp_getattro(delegate, NULL)` - `Delegate('d', prefix='*')` on a class whose
-  `__prefix__` is not a `str` crashed the process on read and on write;
-* F108 (3882e87) `setattr_property0` never released the `args` tuple it creates;
-* F109 (3882e87) `setattr_delegate` returned from the recursion-limit arm
-  (`++i >= 100`) without releasing `daname`. -/
+/-! No exceptions.  Defects this analysis found in earlier trees, all repaired since (a regression changes the
+generated table, `C18_paths_balanced` no longer checks, and the Python twin of the checker
+(`harness/props/c18paths.py`) reports `refpath-imbalance:<function>:<value>`, matched by the `fixed` entries of
+known_findings.json):
+* F107/F107b the unchecked `delegate_attr_name` result in `getattr_delegate` / `setattr_delegate` (e4a9aa5), F108 the
+  `args` of `setattr_property0`, F109 `daname` on the recursion-limit exit of `setattr_delegate` (3882e87);
+* F120/F121 `_has_traits_trait` left through the `break`s at `temp_delegate == NULL` and
+  `!PyHasTraits_Check(delegate)` without releasing `trait` (ec9b27d);
+* F122 `validate_trait_tuple_check` returned NULL when `PyTuple_New(n)` failed without releasing `aitem` (5045620);
+* F123/F123b `has_traits_new` returned NULL from its three error arms without releasing the new `obj`, in the third
+  with a borrowed, never INCREFed `obj->ctrait_dict` stored in it (3c349f5);
+* F124/F124b `get_trait` did not check `PyType_GenericAlloc` for NULL and did not release `itrait` when `PyList_New`
+  or the final `PyDict_SetItem` failed (001e070). -/
 
-set_option maxRecDepth 20000 in
-/-- **Every control-flow path of every covered function of the working tree's
-`ctraits.c` is reference-neutral**, no exception: every value it touches ends
-with nothing held and nothing owed, and no prefix of the path releases, returns
-or gives away a reference the function does not hold, or releases a NULL.
-Removing a `Py_DECREF` from an error arm, releasing twice (F74: the
-`Py_DECREF(name)` that `setattr_trait` had on its `PyDict_SetItem` failure
-path), dropping an `INCREF` of a copied field, jumping past a release, or
-reverting one of F107-F109 changes the generated table and this proof no
-longer checks. -/
+set_option maxRecDepth 100000 in
+/-- **Every control-flow path of every function of the working tree's `ctraits.c`
+that the reader covers (`C18_paths_cover`; the rest is named in
+`C18_paths_unread`) is reference-neutral** - no exception: every
+value it touches ends with nothing held and nothing owed, and no prefix of the
+path releases, returns or gives away a reference the function does not hold, or
+releases / dereferences a NULL.  Removing a `Py_DECREF` from an error arm,
+releasing twice (F74), dropping an `INCREF` of a copied field, jumping past a
+release, or reverting one of the repairs listed above changes the generated table and this
+proof no longer checks. -/
 theorem C18_paths_balanced : ∀ p ∈ Generated.RefPaths.paths, Model.RefPaths.pathOk p = true :=
   List.all_eq_true.mp (by decide)
 
-/-! The same, function by function, for the nine functions
+/-- The checker is not vacuous: it rejects the event lists the repaired paths had - a reference acquired and never
+released (`_has_traits_trait`, `validate_trait_tuple_check`, `has_traits_new`, `get_trait`: `new` without release), and a
+field access through a NULL (`get_trait`: `bad`). -/
+example :
+    Model.RefPaths.pathOk ⟨"_has_traits_trait", 0, "return NULL", true, [(0, .new)]⟩ = false ∧
+    Model.RefPaths.pathOk ⟨"get_trait", 0, "return NULL", true, [(0, .bad)]⟩ = false ∧
+    Model.RefPaths.pathOk ⟨"get_trait", 0, "return result", false, [(0, .new), (0, .ret)]⟩ = true := by
+  decide
+
+/-! The same, function by function and WITHOUT exceptions, for the nine functions
 of the assignment / read / notification / clone core (a failure names the function). -/
 theorem C18_paths_balanced_setattr_trait :
     ∀ p ∈ Generated.RefPaths.paths_setattr_trait, Model.RefPaths.pathOk p = true := by decide
@@ -724,55 +736,123 @@ theorem C18_paths_checker_sound (p : Model.RefPaths.Path) (h : Model.RefPaths.pa
   have := List.all_eq_true.mp h x hx
   exact Lemmas.RefPaths.valueOk_sound p.evs x.1 (by simpa using this)
 
-/-- The functions the path theorems speak about (none was refused for size). -/
+/-- The 134 functions the path theorems speak about: every function definition of
+`ctraits.c` that is not in `pathsUnread`, in source order. -/
 def pathsCovered : List String := [
-  "setattr_trait", "getattr_trait", "default_value_for", "call_notifiers", "trait_clone", "_trait_set_validate",
-  "setattr_readonly", "setattr_event", "_warn_on_attribute_error",
-  "setattr_python", "getattr_delegate", "setattr_delegate", "trait_property_changed",
-  "getattr_property0", "getattr_property1", "getattr_property2", "getattr_property3",
-  "setattr_property0", "setattr_property1", "setattr_property2", "setattr_property3",
-  "setattr_validate_property", "setattr_validate0", "setattr_validate1", "setattr_validate2",
-  "setattr_validate3", "call_class", "getattr_constant", "getattr_event", "getattr_disallow",
-  "setattr_constant", "delegate_attr_name_name", "delegate_attr_name_prefix",
-  "delegate_attr_name_prefix_name", "delegate_attr_name_class_name", "_trait_clone"]
+  "raise_trait_error", "fatal_trait_error", "invalid_attribute_error", "cant_set_items_error",
+  "bad_trait_value_error", "bad_delegate_error", "bad_delegate_error2", "undefined_delegate_error",
+  "delegation_recursion_error", "delegation_recursion_error2", "delete_readonly_error",
+  "set_readonly_error", "set_disallow_error", "set_delete_property_error", "unknown_attribute_error",
+  "dictionary_error", "get_value", "get_trait_flag", "set_trait_flag", "call_class", "has_traits_setattro",
+  "has_traits_new", "has_traits_clear", "has_traits_getattro", "get_trait", "_has_traits_trait",
+  "trait_property_changed", "_has_traits_property_changed", "_has_traits_notifications_enabled",
+  "_has_traits_change_notify", "_has_traits_notifications_vetoed", "_has_traits_veto_notify",
+  "_has_traits_init", "_has_traits_inited", "_has_traits_set_inited", "_has_traits_instance_traits",
+  "_has_traits_class_traits", "_has_traits_notifiers", "get_has_traits_dict", "_warn_on_attribute_error",
+  "default_value_for", "getattr_python", "getattr_generic", "getattr_event", "getattr_trait",
+  "getattr_delegate", "getattr_disallow", "getattr_constant", "getattr_property0", "getattr_property1",
+  "getattr_property2", "getattr_property3", "setattr_python", "setattr_generic", "call_notifiers",
+  "setattr_event", "setattr_trait", "setattr_delegate", "setattr_property0", "setattr_property1",
+  "setattr_property2", "setattr_property3", "setattr_validate_property", "setattr_validate0",
+  "setattr_validate1", "setattr_validate2", "setattr_validate3", "setattr_disallow", "setattr_readonly",
+  "setattr_constant", "trait_new", "trait_clear", "is_dunder_name", "trait_getattro",
+  "_trait_set_default_value", "_trait_default_value", "_trait_default_value_for", "validate_trait_python",
+  "call_validator", "type_converter", "validate_trait_type", "validate_trait_instance",
+  "validate_trait_self_type", "as_integer", "validate_trait_integer", "validate_float",
+  "_ctraits_validate_float", "validate_trait_float", "validate_complex_number",
+  "_ctraits_validate_complex_number", "validate_trait_complex_number", "in_float_range",
+  "validate_trait_float_range", "validate_trait_enum", "validate_trait_map", "validate_trait_tuple_check",
+  "validate_trait_tuple", "validate_trait_coerce_type", "validate_trait_cast_type",
+  "validate_trait_function", "_validate_trait_callable", "validate_trait_callable", "validate_trait_adapt",
+  "validate_trait_complex_body", "validate_trait_complex", "_trait_set_validate", "_trait_get_validate", "_trait_validate",
+  "post_setattr_trait_python", "delegate_attr_name_name", "delegate_attr_name_prefix",
+  "delegate_attr_name_prefix_name", "delegate_attr_name_class_name", "_trait_delegate",
+  "_set_trait_comparison_mode", "_get_trait_comparison_mode_int", "_trait_get_property",
+  "_trait_set_property", "trait_clone", "_trait_clone", "_trait_notifiers", "func_index", "get_trait_dict",
+  "get_trait_handler", "get_trait_post_setattr", "get_trait_property_flag",
+  "get_trait_modify_delegate_flag", "set_trait_modify_delegate_flag",
+  "get_trait_setattr_original_value_flag", "set_trait_setattr_original_value_flag",
+  "get_trait_post_setattr_original_value_flag", "set_trait_post_setattr_original_value_flag",
+  "get_trait_is_mapped_flag", "set_trait_is_mapped_flag"]
 
-set_option maxRecDepth 20000 in
-/-- Non-vacuity of `C18_paths_balanced`: the table speaks about exactly the 36
-functions above, none refused; every one has at least one path; every function
-of the core that can fail has a path that reports an error and a path that does
-not (the two `void` functions `trait_clone`, `_warn_on_attribute_error` have
-only the latter); and the per-function tables are what `paths` is made of. -/
+/-- The 19 function definitions the reader does NOT cover (why: `Generated.RefPaths.unread`). -/
+def pathsUnread : List String := [
+  "set_value", "dict_getitem", "get_prefix_trait", "has_traits_init", "has_traits_dealloc",
+  "has_traits_traverse", "_has_traits_items_event", "set_has_traits_dict", "trait_dealloc",
+  "trait_traverse", "_trait_getstate", "_trait_setstate", "set_trait_dict", "set_trait_handler",
+  "set_trait_post_setattr", "_ctraits_list_classes", "_ctraits_adapt", "_ctraits_ctrait", "PyInit_ctraits"]
+
+set_option maxRecDepth 100000 in
+/-- Non-vacuity of `C18_paths_balanced`: the table speaks about exactly the
+functions of `pathsCovered`; every one has at least one path (`pathCounts`, whose
+counts add up to the length of `paths`); every function of the core that can fail
+has a path that reports an error and a path that does not, and its table is
+tagged with its name. -/
 theorem C18_paths_cover :
-    Generated.RefPaths.covered = pathsCovered ∧ Generated.RefPaths.refused = [] ∧
-    (pathsCovered.all fun f => Generated.RefPaths.paths.any (·.fn == f)) = true ∧
-    (["setattr_trait", "getattr_trait", "default_value_for", "call_notifiers", "_trait_set_validate",
-      "setattr_readonly", "setattr_event"].all fun f =>
-        Generated.RefPaths.paths.any (fun p => p.fn == f && p.isErr) &&
-        Generated.RefPaths.paths.any (fun p => p.fn == f && !p.isErr)) = true ∧
-    (Generated.RefPaths.paths.all fun p => pathsCovered.contains p.fn) = true ∧
-    (Generated.RefPaths.paths_setattr_trait.all (·.fn == "setattr_trait")) = true ∧
+    Generated.RefPaths.covered = pathsCovered ∧
+    Generated.RefPaths.pathCounts.map (·.1) = pathsCovered ∧
+    (Generated.RefPaths.pathCounts.all fun c => decide (c.2.2 ≥ 1)) = true ∧
+    (Generated.RefPaths.pathCounts.map (·.2.2)).sum = Generated.RefPaths.paths.length ∧
+    (Generated.RefPaths.paths_setattr_trait.any (·.isErr) && Generated.RefPaths.paths_setattr_trait.any (!·.isErr) &&
+      Generated.RefPaths.paths_setattr_trait.all (·.fn == "setattr_trait")) = true ∧
+    (Generated.RefPaths.paths_getattr_trait.any (·.isErr) && Generated.RefPaths.paths_getattr_trait.any (!·.isErr) &&
+      Generated.RefPaths.paths_getattr_trait.all (·.fn == "getattr_trait")) = true ∧
+    (Generated.RefPaths.paths_default_value_for.any (·.isErr) && Generated.RefPaths.paths_default_value_for.any (!·.isErr) &&
+      Generated.RefPaths.paths_default_value_for.all (·.fn == "default_value_for")) = true ∧
+    (Generated.RefPaths.paths_call_notifiers.any (·.isErr) && Generated.RefPaths.paths_call_notifiers.any (!·.isErr) &&
+      Generated.RefPaths.paths_call_notifiers.all (·.fn == "call_notifiers")) = true ∧
+    (Generated.RefPaths.paths__trait_set_validate.any (·.isErr) && Generated.RefPaths.paths__trait_set_validate.any (!·.isErr) &&
+      Generated.RefPaths.paths__trait_set_validate.all (·.fn == "_trait_set_validate")) = true ∧
+    (Generated.RefPaths.paths_setattr_readonly.any (·.isErr) && Generated.RefPaths.paths_setattr_readonly.any (!·.isErr) &&
+      Generated.RefPaths.paths_setattr_readonly.all (·.fn == "setattr_readonly")) = true ∧
+    (Generated.RefPaths.paths_setattr_event.any (·.isErr) && Generated.RefPaths.paths_setattr_event.any (!·.isErr) &&
+      Generated.RefPaths.paths_setattr_event.all (·.fn == "setattr_event")) = true ∧
     Generated.RefPaths.paths_setattr_trait.length ≥ 40 := by
   decide
 
-/-- The transfers into struct fields, all of them: the fresh `__dict__` of an
-object that had none (three functions), the six fields `trait_clone` copies
-(each `store` is paid by the `Py_XINCREF` that follows, each overwritten value
-`take`n and released - since 86511b4), and the validator `_trait_set_validate`
-stores after `Py_INCREF` (d96fc77) - the third component says where the stored
-value comes from.  A new store of a reference into a field anywhere in the
-covered functions changes this table. -/
+/-- The function definitions of `ctraits.c` the path theorems do NOT speak about,
+by name (reasons in `Generated.RefPaths.unread`: statement forms the reader does
+not understand - `#if`, `Py_VISIT` callbacks, `PyObject **` helpers, out-parameters
+into fields, assignments to globals, a backward `goto` -, a size cap, a by-design
+borrowed return, or a call into one of these).  The list can only change knowingly. -/
+theorem C18_paths_unread : Generated.RefPaths.unread.map (·.1) = pathsUnread := by
+  decide
+
+/-- The transfers of references into struct fields, all of them, with where the
+stored value comes from: fresh `__dict__` / instance-trait dictionaries / notifier
+lists of objects that had none, the six fields `trait_clone` copies (each `store`
+paid by the `Py_XINCREF` that follows, each overwritten value `take`n and
+released - since 86511b4), the arguments the `CTrait` setters keep after
+`Py_INCREF`, the class-trait dictionary of `has_traits_new` and the copies of
+`get_trait`.  A new store of a reference into a field anywhere in the covered
+functions changes this table. -/
 theorem C18_paths_stores :
     Generated.RefPaths.stores = [
-      ("setattr_trait", "obj->obj_dict", "PyDict_New()"),
+      ("has_traits_new", "obj->ctrait_dict", "PyDict_GetItem()"),
+      ("get_trait", "itrait->notifiers", "PyList_New()"),
+      ("get_trait", "itrait->obj_dict", "trait->obj_dict"),
+      ("get_trait", "obj->itrait_dict", "PyDict_New()"),
+      ("_has_traits_instance_traits", "obj->itrait_dict", "PyDict_New()"),
+      ("_has_traits_notifiers", "obj->notifiers", "PyList_New()"),
+      ("get_has_traits_dict", "obj->obj_dict", "PyDict_New()"),
       ("getattr_trait", "obj->obj_dict", "PyDict_New()"),
+      ("setattr_python", "obj->obj_dict", "PyDict_New()"),
+      ("setattr_trait", "obj->obj_dict", "PyDict_New()"),
+      ("_trait_set_default_value", "trait->default_value", "PyArg_ParseTuple()"),
+      ("_trait_set_validate", "trait->py_validate", "PyArg_ParseTuple()"),
+      ("_trait_delegate", "trait->delegate_name", "PyArg_ParseTuple()"),
+      ("_trait_delegate", "trait->delegate_prefix", "PyArg_ParseTuple()"),
+      ("_trait_set_property", "trait->delegate_name", "PyArg_ParseTuple()"),
+      ("_trait_set_property", "trait->delegate_prefix", "PyArg_ParseTuple()"),
+      ("_trait_set_property", "trait->py_validate", "PyArg_ParseTuple()"),
       ("trait_clone", "trait->default_value", "source->default_value"),
       ("trait_clone", "trait->delegate_name", "source->delegate_name"),
       ("trait_clone", "trait->delegate_prefix", "source->delegate_prefix"),
       ("trait_clone", "trait->handler", "source->handler"),
       ("trait_clone", "trait->py_post_setattr", "source->py_post_setattr"),
       ("trait_clone", "trait->py_validate", "source->py_validate"),
-      ("_trait_set_validate", "trait->py_validate", "PyArg_ParseTuple()"),
-      ("setattr_python", "obj->obj_dict", "PyDict_New()")] := by
+      ("_trait_notifiers", "trait->notifiers", "PyList_New()"),
+      ("get_trait_dict", "trait->obj_dict", "PyDict_New()")] := by
   decide
 
 /-- The three repaired defects, as the analysis saw them before the repairs (the
